@@ -19,7 +19,7 @@ RULE = (
     "case = (fault, prefix, suffix, EOL style, location): 19 fault statements (one per error category: syntax error, undefined "
     "identifier, failed assert, unknown directive, misplaced sealing, invalid type parameter, invalid capacity, unknown data type, "
     "and the lazily committed / finalize-time ones: out-of-range constant, invalid attribute name, duplicate attribute name, bad "
-    "aggregation, missing serialization mode, expression nested beyond the interpreter stack, file that is not UTF-8) and @print; prefix of 0..2 (thorough 3) and suffix of 0..1 (thorough 2) lines over "
+    "aggregation, missing serialization mode, expression nested beyond the interpreter stack, file that is not UTF-8) and @print; prefix of 0..2 and suffix of 0..1 lines (thorough, in the target: prefix 0..3 x suffix 0..1 and prefix 0..2 x suffix 2) over "
     "{empty, comment, field, field+comment, directive, padding field, constant, a directive that continues on the next physical line (line break inside a string literal), a comment containing FF / VT / FS / GS / RS / NEL / LS / PS, a directive on one physical line whose string literals denote line breaks through escapes}; LF / CRLF / lone CR / mixed line endings; location in {target, dependency in a lookup root, dependency of "
     "a dependency, dependency in the same root read after its referrer, dependency in the same root read before its referrer} with "
     "the reference on line 2..4 of the referrer. Non-trivial iff the prefix is non-empty or the location is not the target; "
@@ -173,10 +173,18 @@ def cases(shard, tier):
             if i % shard["parts"] == shard["part"]:
                 yield c
         return
-    maxp, maxs = (2, 1) if tier == "quick" else (3, 2)
-    for p, s in contexts(maxp, maxs):
+    # thorough: in the target, prefixes of up to 3 with suffixes of up to 1 and prefixes of up to 2 with suffixes of up to 2 lines;
+    # in dependencies prefixes of up to 2, suffixes of up to 1 with three reference lines; other line endings up to 2 context lines
+    # (the full (3, 2) product over 5 locations x 4 line endings is 1.3e8 reads and was never completed)
+    if tier == "quick":
+        ctxs = list(contexts(2, 1))
+    elif shard["location"] == "target":
+        ctxs = list(contexts(3, 1)) + [(p, s) for p, s in contexts(2, 2) if len(s) == 2]
+    else:
+        ctxs = list(contexts(2, 1))
+    for p, s in ctxs:
         for eol in ("lf", "crlf", "cr", "mixed"):
-            if tier == "quick" and len(p) + len(s) > {"lf": 9, "crlf": 2, "cr": 1, "mixed": 1}[eol]:
+            if len(p) + len(s) > ({"lf": 9, "crlf": 2, "cr": 1, "mixed": 1} if tier == "quick" else {"lf": 9, "crlf": 2, "cr": 2, "mixed": 2})[eol]:
                 continue
             ref_lines = [2] if shard["location"] == "target" else ([2, 4] if tier == "quick" else [2, 3, 4])
             for rl in ref_lines:
